@@ -317,8 +317,11 @@ class Layer(object):
         """
         # First we inject a LAYERS attribute into the class
         layers_prop_name = 'LAYERS'
-        if not hasattr(cls, layers_prop_name):
-            setattr(cls, layers_prop_name, {})
+        # (our own dictionary: hasattr() would also see the dictionary of a base
+        # class and we would register our sub-layers into that base class; we
+        # start from the sub-layers inherited from our base classes, if any)
+        if layers_prop_name not in vars(cls):
+            setattr(cls, layers_prop_name, dict(getattr(cls, layers_prop_name, {})))
         class_layers = getattr(cls, layers_prop_name)
 
         # Then an input boolean field
@@ -340,6 +343,11 @@ class Layer(object):
         if hasattr(cls, layers_prop_name):
             class_layers = getattr(cls, layers_prop_name)
             if clazz.alias in class_layers:
+                # Remove from our own dictionary, never from the one we inherit
+                # from a base class (which keeps its sub-layer)
+                if layers_prop_name not in vars(cls):
+                    setattr(cls, layers_prop_name, dict(class_layers))
+                    class_layers = getattr(cls, layers_prop_name)
                 del class_layers[clazz.alias]
 
     def __init__(self, parent=None, layer_name=None, options={}):
